@@ -362,6 +362,44 @@ func init() {
 		Note:      "level test at every position: weighted close above its moving average Buy, otherwise Sell; the doc comment is silent on equality, the code gives it to Sell (so there is no Hold after the warm-up; with period 1 the average equals the weighted close and every position is a tie)",
 	})
 
+	// the moving average is an exported field of interface type trend.Ma: replacing it is how anything but an SMA is used
+	RegStrat(&Strat{
+		Name: "trend.WeightedCloseStrategy (Ma replaced)",
+		// cfg = [period given to the constructor, kind of the moving average assigned afterwards, its period]
+		Cfgs: func(t bool) [][]float64 {
+			var r [][]float64
+			for _, k := range []int{maSma, maEma, maWma, maHma} {
+				for _, p := range [][2]int{{3, 2}, {2, 3}, {2, 4}} {
+					r = append(r, []float64{float64(p[0]), float64(k), float64(p[1])})
+				}
+			}
+			return r
+		},
+		New: func(c []float64) strategy.Strategy {
+			s := strend.NewWeightedCloseStrategyWith(I(c, 0))
+			s.Ma = volMa(I(c, 1), I(c, 2))
+			return s
+		},
+		Warm: func(c []float64) int { return volMa(I(c, 1), I(c, 2)).IdlePeriod() },
+		Rule: func(c []float64, b Bars) RuleFn {
+			w := wcOf(b)
+			m := volMaRef(I(c, 1), w, I(c, 2))
+			return func(i int, k *Cmp) int {
+				x, ok1 := k.Val(w, i)
+				y, ok2 := k.Val(m, i)
+				if !ok1 || !ok2 || k.Exempt {
+					return Hold
+				}
+				if k.Gt(x, y) {
+					return Buy
+				}
+				return Sell
+			}
+		},
+		ScaleFree: true,
+		Note:      "as trend.WeightedCloseStrategy with the Ma field reassigned after construction (SMA, EMA, WMA, HMA of another period)",
+	})
+
 	// ---------------------------------------------------------------- momentum.AwesomeOscillatorStrategy
 	RegStrat(&Strat{
 		Name: "momentum.AwesomeOscillatorStrategy",
